@@ -99,6 +99,30 @@ class FakeRandom:
         raise AssertionError
 
 
+def _canon(x):
+    return "-".join(str(y) for y in x) if isinstance(x, (list, tuple)) else str(x)
+
+
+def quote_tag(template):
+    """what the fabulist stand-ins echo for get_quote(template)"""
+    return "[Q:" + ("|".join(template) if isinstance(template, (list, tuple)) else template) + "]"
+
+
+LOREM_KEYS = ("sentence_count", "dialect", "entropy", "keep_first", "words_per_sentence")
+LOREM_DEFAULTS = dict(sentence_count=(2, 6), dialect="ipsum", entropy=2, keep_first=False, words_per_sentence=(3, 15))
+
+
+def lorem_tag(kw):
+    """what the fabulist stand-ins echo for get_lorem_paragraph(**kw)"""
+    return "[L:" + "|".join(_canon(kw.get(k, "?")) for k in LOREM_KEYS) + ("" if set(kw) <= set(LOREM_KEYS) else "|+") + "]"
+
+
+def declared_tag(j):
+    if j["R"] == "Text":
+        return quote_tag(j["tmpl"])
+    return lorem_tag(dict(LOREM_DEFAULTS, **(j.get("kw") or {})))
+
+
 class FakeFab:
     def __init__(self, st: Stream):
         self._st = st
@@ -107,10 +131,10 @@ class FakeFab:
         return True
 
     def get_quote(self, template):
-        return self._st.next("text")[2]
+        return quote_tag(template) + self._st.next("text")[2]
 
     def get_lorem_paragraph(self, **kw):
-        return self._st.next("text")[2]
+        return lorem_tag(kw) + self._st.next("text")[2]
 
 
 class RecRandom:
@@ -154,13 +178,13 @@ class RecFab:
         t = self._real.get_quote(template)
         self._st.draws.append((0, 1, t))
         self._st.next("text")
-        return t
+        return quote_tag(template) + t
 
     def get_lorem_paragraph(self, **kw):
         t = self._real.get_lorem_paragraph(**kw)
         self._st.draws.append((0, 1, t))
         self._st.next("text")
-        return t
+        return lorem_tag(kw) + t
 
 
 class patched:
@@ -234,9 +258,10 @@ def py_value(j):
     if k == "Sample":
         return TG.SampleRandomizer([py_value(v) for v in j["vals"]], counts=j["counts"], probability=p)
     if k == "Text":
-        return TG.TextRandomizer(j["tmpl"], probability=p)
+        return TG.TextRandomizer(tuple(j["tmpl"]) if isinstance(j["tmpl"], list) else j["tmpl"], probability=p)
     if k == "BlindText":
-        return TG.BlindTextRandomizer(probability=p)
+        kw = {a: (tuple(b) if isinstance(b, list) else b) for a, b in (j.get("kw") or {}).items()}
+        return TG.BlindTextRandomizer(probability=p, **kw)
     raise ValueError(j)
 
 
@@ -289,7 +314,10 @@ def reconfigure(obj, j):
         obj.sample_list = [py_value(v) for v in j["vals"]]
         obj.counts = j["counts"]
     elif k == "Text":
-        obj.template = j["tmpl"]
+        obj.template = tuple(j["tmpl"]) if isinstance(j["tmpl"], list) else j["tmpl"]
+    elif k == "BlindText":
+        for a, b in dict(LOREM_DEFAULTS, **(j.get("kw") or {})).items():
+            setattr(obj, a, tuple(b) if isinstance(b, list) else b)
 
 
 class Live:
@@ -451,7 +479,7 @@ def coq_rnd(j):
         cnt = "None" if j["counts"] is None else "(Some " + H.coq_list(H.z(c) for c in j["counts"]) + ")"
         return f"(RSample {H.coq_list(coq_value(v) for v in j['vals'])} {cnt} {p})"
     if k in ("Text", "BlindText"):
-        return f"(RText {p})"
+        return f"(RText {coq_tmpl(declared_tag(j))} {p})"
     raise ValueError(j)
 
 
@@ -571,8 +599,8 @@ def rnd_allows(j, v, i, path):
     if k == "Sample":
         cnts = j["counts"] or [1] * len(j["vals"])
         return any(x is not None and c > 0 and same(v, plain(x, i, path)) for x, c in zip(j["vals"], cnts))
-    if k in ("Text", "BlindText"):
-        return type(v) is str
+    if k in ("Text", "BlindText"):      # fabulist was called with the declared arguments; its words are an oracle
+        return type(v) is str and v.startswith(expand_str(declared_tag(j), i, path))
     return False
 
 
@@ -589,23 +617,49 @@ def rnd_may_skip(j):
 
 
 def cnt(v):
+    """children a resolved :count stands for; None = range(count) raises TypeError"""
     if v is True:
         return 1
     if type(v) is int:
         return max(v, 0)
-    return 0
+    if v is None or v is False or (type(v) in (float, str) and not v):
+        return 0            # `... or 0`
+    return None
+
+
+def count_typed(j):
+    """can this :count only resolve to something range() accepts?  (CaseC20/RandomTreeProofs count_wfb)"""
+    if not is_rnd(j):
+        return not (isinstance(j, dict) and ("factory" in j or "cb" in j)) and cnt(py_value(j)) is not None
+    k = j["R"]
+    if k == "RangeI":
+        return cnt(py_value(j["none"])) is not None
+    if k == "Value":
+        return count_typed(j["v"])
+    if k == "SparseBool":
+        return True
+    if k == "Sample":
+        return all(count_typed(x) for x in j["vals"])
+    return False
+
+
+def counts_typed(desc):
+    return all(":count" not in m or count_typed(m[":count"])
+               for p, cs in desc["relations"] for c, spec in cs for m in [merged(desc, c, spec)])
 
 
 def allowed_counts(j):
+    """numbers of children a relation with this :count may get in a tree that WAS built (values that make
+    range() raise do not count: with them no tree is returned)"""
     if not is_rnd(j):
-        return {cnt(py_value(j))}
+        return {cnt(py_value(j))} - {None}
     k = j["R"]
     p = Fraction(*j["p"])
     out = set()
     if p < 1:
         out.add(cnt(py_value(j["none"])) if k in ("RangeI", "RangeF") else 0)
     if p == 0:
-        return out          # probability 0.0: never generated (D60)
+        return out - {None}          # probability 0.0: never generated (D60)
     if k == "RangeI":
         out.update(max(x, 0) for x in range(j["lo"], j["hi"] + 1))
     elif k == "Value":
@@ -614,9 +668,8 @@ def allowed_counts(j):
         out.add(1)
     elif k == "Sample":
         out.update(cnt(py_value(x)) for x in j["vals"])
-    else:
-        out.add(0)
-    return out
+    # RangeF / Date / Text: floats, dates and strings are refused by range()
+    return out - {None}
 
 
 def merged(desc, ctype, spec):
@@ -738,7 +791,7 @@ def cyclic(desc):
     for p, cs in desc["relations"]:
         for c, spec in cs:
             m = merged(desc, c, spec)
-            if c in rels and (":count" not in m or max(allowed_counts(m[":count"])) > 0):
+            if c in rels and (":count" not in m or max(allowed_counts(m[":count"]), default=0) > 0):
                 edges.setdefault(p, []).append(c)
     state = {}
 
@@ -817,7 +870,7 @@ class Prop:
         "randrange(a,b)=a+n mod (b-a), random()=(n mod d)/d, uniform(a,b)=a+(b-a)*random(), sample = index n mod total into the expanded population",
         "floats are fed exactly representable values (dyadic rationals), so float arithmetic in uniform() is exact",
         "D39 (domain): the relation graph restricted to relations that may create a child is acyclic",
-        "domain: :count resolves to int/bool/None; :factory is DictWrapper or a keyword-argument class of the harness; :callback is absent or one of two families (set key to int, delete key); templates use only {idx}, {idx:0Nd}, {hier_idx}, {{, }}",
+        "domain (counts_wf, decided per case): :count resolves to int/bool/None/0.0/\"\" - anything else is refused by range() with TypeError (modelled); :factory is DictWrapper or a keyword-argument class of the harness; :callback is absent or one of two families (set key to int, delete key); templates use only {idx}, {idx:0Nd}, {hier_idx}, {{, }}",
     ]
     manifest = dict(
         text=("Machine-checked theorems (Coq 8.16, no axioms) about an executable model of nutree/tree_generator.py in which the global "
@@ -832,10 +885,22 @@ class Prop:
               "independent Python conformance oracle."),
         note=("Trusted: Coq kernel + vm_compute; hand-written model theories/Forest/RandomTree.v (tied by the correspondence and the generated "
               "source facts only); the harness's stand-ins for random.random/randrange/uniform/sample and fabulist; floats are fed dyadic "
-              "values so that uniform() is exact.  D39 (cyclic definitions do not terminate) is a recorded domain restriction "
-              "(hypothesis rank_ok; C20_terminates_for_every_definition_refuted).  D60 (probability 0.0 could generate) is repaired by "
-              "fixes/D60.diff.  The oracle accepts the closed declared range [min,max]; the theorems and the correspondence pin the "
-              "half-open range the code draws from."),
+              "values so that uniform() is exact.  TEXT CONTENT IS AN ORACLE: for Text-/BlindTextRandomizer the claim is only that the value is "
+              "absent or the answer of fabulist for exactly the DECLARED arguments (template / sentence_count, dialect, entropy, keep_first, "
+              "words_per_sentence) - the stand-ins (and the wrapper around the real fabulist) echo the arguments they were called with in front "
+              "of the text, model and oracle expect the echo of the declared ones (C20_text_randomizers); nothing is claimed about the words "
+              "fabulist picks; with fabulist absent both constructors raise RuntimeError (cases CCtorNoFab).  CLASS / KIND: C20_class_and_kind "
+              "and C20_class_independent are definitional in the model (proved by reflexivity); they speak about exactly the terms run20 "
+              "evaluates (class, name, kind_of of every node), the clause itself is carried by the correspondence (class, name and every node's "
+              "kind observed) and by the oracle (kind = relation type for every node, plain Node in a plain Tree).  NON-INT :count: a float, "
+              "non-empty str, date, class as :count (fixed or from a randomizer) makes range(count) raise TypeError - sane refusal, not a defect; "
+              "the model reproduces it (count_err / raised), such definitions are outside the conformance theorems (hypothesis counts_wf, decided "
+              "per case by in_domain) and the generator produces them (None, 0.0, \"\" mean 0 children).  'Caller's definition not modified' is "
+              "outside the value model: checked by the oracle (snapshot around every build).  D39 (cyclic definitions do not terminate) is a "
+              "recorded domain restriction (hypothesis rank_ok; C20_terminates_for_every_definition_refuted).  D60 (probability 0.0 could generate) "
+              "and D61 (attribute names dict_inst/self) are repaired.  The oracle accepts the closed declared range [min,max]; the theorems and the "
+              "correspondence pin the half-open range the code draws from (floats: exact rationals, q < max; IEEE rounding of uniform() may "
+              "return max)."),
         technique="Coq proof about an executable Gallina model + differential correspondence check (vm_compute) + Python oracle",
         design_ref="DESIGN.md section 6 (C20), section 7 (D39)",
     )
@@ -845,6 +910,8 @@ class Prop:
         yield from CORPUS
         for _ in range(60 if tier == "quick" else 400):
             yield dict(ctor=gen_ctor(rng))
+        for _ in range(25 if tier == "quick" else 150):
+            yield dict(ctor=gen_ctor(rng), nofab=True)
         for _ in range(40 if tier == "quick" else 200):
             d = gen_def(rng)
             if '"RangeF"' in _json.dumps(d) or fab_missing():
@@ -902,7 +969,32 @@ class Prop:
                 yield dict(desc, types=ty2)
 
     # -------------------------------------------------------------------- run
+    def run_ctor_nofab(self, desc):
+        """fabulist not installed (tree_generator.fab is None)"""
+        j = desc["ctor"]
+        code = 1
+        saved = TG.fab
+        TG.fab = None
+        try:
+            py_value(j)
+        except AssertionError:
+            code = 0
+        except RuntimeError:
+            code = 2
+        finally:
+            TG.fab = saved
+        p = Fraction(*j["p"])
+        k = j["R"]
+        bad = (k == "RangeI" and j["lo"] >= j["hi"]) or (k == "RangeF" and Fraction(*j["lo"]) >= Fraction(*j["hi"])) or \
+            (k == "Date" and (j["days"] if j.get("days") is not None else j["max"] - j["min"]) <= 0)
+        want = 0 if not 0 <= p <= 1 else 2 if k in ("Text", "BlindText") else 0 if bad else 1
+        return Case(desc=desc, coq_input=f"(CCtorNoFab {coq_rnd(j)})", impl_obs=[-3, code],
+                    oracle_fail=None if code == want else f"constructor: without fabulist {j} -> {code}, expected {want}",
+                    nontrivial=False, key=H.digest(desc), stats=dict(ctor_nofab=k, outcome=code))
+
     def run_ctor(self, desc):
+        if desc.get("nofab"):
+            return self.run_ctor_nofab(desc)
         j = desc["ctor"]
         ok = True
         with patched(Stream([])):
@@ -949,7 +1041,8 @@ class Prop:
         coq_in = f"(CBuild {H.coq_bool(desc['typed'])} {coq_def(desc)} {fuel} {coq_rk} {coq_stream((st.draws if real is not None else desc['stream'])[:st.pos + 6])})"
         no_root = not any(p == "__root__" for p, _ in desc["relations"])
         if err is not None:
-            refused = no_root and isinstance(err, AssertionError)      # assert "__root__" in relations
+            refused = (no_root and isinstance(err, AssertionError)) or \
+                (not no_root and isinstance(err, TypeError) and not counts_typed(desc))   # range(count) refuses a non-int :count
             return Case(desc=desc, coq_input=coq_in, impl_obs=[-2, H.err_class(err)],
                         oracle_fail=None if refused else f"crash: {type(err).__name__}: {err}", nontrivial=False,
                         key=H.digest(desc), stats=dict(error=type(err).__name__))
@@ -957,7 +1050,8 @@ class Prop:
             return Case(desc=desc, coq_input=coq_in, impl_obs=[0], oracle_fail="refusal: definition without '__root__' accepted",
                         nontrivial=False, key=H.digest(desc))
         obs = [type(tree) is TypedTree, H.sx_opt(tree.name if desc.get("name") is not None else None),
-               [obs_node(c) for c in (tree._root._children or [])], rk is not None, tree._forward_attrs is True]
+               [obs_node(c) for c in (tree._root._children or [])], rk is not None and counts_typed(desc),
+               tree._forward_attrs is True]
         fail = oracle(desc, tree)
         if fail is None and mutated:
             fail = "definition: build_random_tree modified the caller's structure definition"
@@ -969,7 +1063,7 @@ class Prop:
                     nontrivial=n >= 2 and st.pos >= 1, key=H.digest(desc),
                     stats=dict(nodes=min(n, 60) // 5 * 5, depth=depth, draws=min(st.pos, 100) // 10 * 10,
                                stream_exhausted=st.pos > len(st.draws), calls="+".join(kinds), typed=desc["typed"], real_random=real is not None,
-                               in_theorem_domain=rk is not None, uses_callback='":callback"' in _json.dumps(desc),
+                               in_theorem_domain=rk is not None and counts_typed(desc), uses_callback='":callback"' in _json.dumps(desc),
                                uses_obj_factory='"Obj"' in _json.dumps(desc)))
 
     def run_session(self, desc):
@@ -1069,8 +1163,19 @@ def gen_rnd(rng):
                 counts[rng.randrange(n)] = 2
         return {"R": k, "vals": vals, "counts": counts, "p": p}
     if k == "Text":
-        return {"R": k, "tmpl": "$(Noun) {idx}", "p": p}
-    return {"R": k, "p": p}
+        return {"R": k, "tmpl": rng.choice(["$(Noun) {idx}", "{idx}: Provide $(Noun:plural)", "$(Verb:ing) $(noun)", ["$(Noun)", "a $(adj) $(noun) {hier_idx}"]]), "p": p}
+    kw = {}
+    if rng.random() < 0.6:
+        kw["sentence_count"] = rng.choice([1, 2, [1, 3]])
+    if rng.random() < 0.4:
+        kw["dialect"] = rng.choice(["ipsum", "pulp", "trappatoni"])
+    if rng.random() < 0.3:
+        kw["entropy"] = rng.choice([0, 1, 3])
+    if rng.random() < 0.3:
+        kw["keep_first"] = True
+    if rng.random() < 0.4:
+        kw["words_per_sentence"] = rng.choice([4, [2, 5]])
+    return {"R": k, "kw": kw, "p": p}
 
 
 def fab_missing():
@@ -1103,6 +1208,12 @@ def gen_callback(rng):
 
 def gen_count(rng, positive=False):
     r = rng.random()
+    if not positive and rng.random() < 0.06:
+        # not an int: range(count) raises TypeError (or, for the falsy ones, `or 0` applies)
+        return rng.choice([{"f": [5, 2]}, {"f": [8, 4]}, {"f": [0, 1]}, "x", "", {"d": D0}, "{idx}",
+                           {"R": "RangeF", "lo": [4, 4], "hi": [12, 4], "p": rng.choice(CPROBS), "none": None},
+                           {"R": "Value", "v": "two", "p": [1, 2]},
+                           {"R": "Sample", "vals": [1, {"f": [6, 4]}, 2], "counts": None, "p": [1, 1]}])
     if positive:
         if r < 0.5:
             return rng.choice([1, 2, 2, 3, 3])
